@@ -234,6 +234,7 @@ func (c *Ctx) load(s *State, sh *PtrShape) []Term {
 			c.addFact(typeInv(sh.Typ, out))
 		} else {
 			s.assume(c, typeInv(sh.Typ, out))
+			s.assume(c, refsBelow(sh.Typ, out, s.Alloc))
 		}
 	}
 	return out
